@@ -301,9 +301,9 @@ theorem encodeParts_reads_edns (opq : Nat → Rd Bytes) (m : Message) (q : Query
           have LQ := lay_final (isLayout_all _ (by
             intro L hL; simp only [List.mem_map] at hL; obtain ⟨q, _, rfl⟩ := hL; exact isLayout_query q))
             (by omega) P2.lay pre2 hfblen hsame
-          have recsLay : ∀ rs : List Record, (∀ r ∈ rs, SectionOK m.md.op r) →
+          have recsLay : ∀ (b : Bool) (rs : List Record), (∀ r ∈ rs, SectionOK m.md.op r b) →
               IsLayout (layAll (rs.map layRecord)) := by
-            intro rs hrs
+            intro b rs hrs
             refine isLayout_all _ ?_
             intro L hL
             simp only [List.mem_map] at hL
@@ -315,9 +315,9 @@ theorem encodeParts_reads_edns (opq : Nat → Rd Bytes) (m : Message) (q : Query
           have wa := sectionOK_take anC hwf.an
           have wn := sectionOK_take nsC hwf.ns
           have wr := sectionOK_take arC hwf.ar
-          have LA := lay_final (recsLay _ wa) (by omega) P3.lay pre3 hfblen hsame
-          have LN := lay_final (recsLay _ wn) (by omega) P4.lay pre4 hfblen hsame
-          have LR := lay_final (recsLay _ wr) (by omega) P5.lay pre5 hfblen hsame
+          have LA := lay_final (recsLay _ _ wa) (by omega) P3.lay pre3 hfblen hsame
+          have LN := lay_final (recsLay _ _ wn) (by omega) P4.lay pre4 hfblen hsame
+          have LR := lay_final (recsLay _ _ wr) (by omega) P5.lay pre5 hfblen hsame
           have hmdw : mdw.id = m.md.id ∧ mdw.op = m.md.op ∧ mdw.rcode = m.md.rcode := by
             rw [← hMD]; exact ⟨rfl, rfl, rfl⟩
           have hhw : HeaderWF mdw cc := by
@@ -504,9 +504,9 @@ theorem encodeParts_reads (opq : Nat → Rd Bytes) (m : Message) (q : Query) (hw
           have LQ := lay_final (isLayout_all _ (by
             intro L hL; simp only [List.mem_map] at hL; obtain ⟨q, _, rfl⟩ := hL; exact isLayout_query q))
             (by omega) P2.lay pre2 hfblen hsame
-          have recsLay : ∀ rs : List Record, (∀ r ∈ rs, SectionOK m.md.op r) →
+          have recsLay : ∀ (b : Bool) (rs : List Record), (∀ r ∈ rs, SectionOK m.md.op r b) →
               IsLayout (layAll (rs.map layRecord)) := by
-            intro rs hrs
+            intro b rs hrs
             refine isLayout_all _ ?_
             intro L hL
             simp only [List.mem_map] at hL
@@ -518,9 +518,9 @@ theorem encodeParts_reads (opq : Nat → Rd Bytes) (m : Message) (q : Query) (hw
           have wa := sectionOK_take anC hwf.an
           have wn := sectionOK_take nsC hwf.ns
           have wr := sectionOK_take arC hwf.ar
-          have LA := lay_final (recsLay _ wa) (by omega) P3.lay pre3 hfblen hsame
-          have LN := lay_final (recsLay _ wn) (by omega) P4.lay pre4 hfblen hsame
-          have LR := lay_final (recsLay _ wr) (by omega) P5.lay pre5 hfblen hsame
+          have LA := lay_final (recsLay _ _ wa) (by omega) P3.lay pre3 hfblen hsame
+          have LN := lay_final (recsLay _ _ wn) (by omega) P4.lay pre4 hfblen hsame
+          have LR := lay_final (recsLay _ _ wr) (by omega) P5.lay pre5 hfblen hsame
           have hmdw : mdw.id = m.md.id ∧ mdw.op = m.md.op ∧ mdw.rcode = m.md.rcode := by
             rw [← hMD]; exact ⟨rfl, rfl, rfl⟩
           have hhw : HeaderWF mdw cc := by
